@@ -3,7 +3,7 @@
    (live buffers pairwise distinct and disjoint from the pools, pooled buffers zero, pooled
    structs clean: Pool.inv_b) is evaluated on every step of every real operation sequence by
    the correspondence check — that part is validated, not yet proved (see DESIGN §6 C17). *)
-From Verif Require Import Prelude Gen Frame Pool PoolProofs PoolInv.
+From Verif Require Import Prelude Gen Frame Pool PoolProofs PoolInv TranslatedDec.
 
 (* Clone: identical bytes, parsed fields, addresses and receive link, in a different buffer;
    the source frame is untouched.  For every state, every pool choice. *)
@@ -98,3 +98,16 @@ Theorem C17_oversized_pinned_panics : forall s f ty src dst sb msg apx nonce3 of
   init_frame_pinned s f ty src dst sb msg apx nonce3 off ovh bc = Panic.
 Proof. exact init_frame_pinned_oversized_panics. Qed.
 Print Assumptions C17_oversized_pinned_panics.
+
+(* the translated source of FrameDataWithMargins (harness/gen_translate_dec.go): a frame is handed
+   to a link together with the link's margins exactly when the room exists in its pooled buffer —
+   an exact fit included — and the slice is the frame with that room around it; no request with
+   non-negative margins takes a slice out of bounds *)
+Theorem C17_source_margins : forall len lps psoff offset overhead,
+  (0 <= len)%Z -> (0 <= psoff)%Z -> (0 <= offset)%Z -> (0 <= overhead)%Z ->
+  Gen.go_FrameV1_FrameDataWithMargins len lps psoff offset overhead =
+    if ((offset <=? psoff)%Z && (psoff + len + overhead <=? lps)%Z)
+    then DOk [psoff - offset; psoff + len + overhead]%Z
+    else if (offset <=? psoff)%Z then DErr 2 else DErr 1.
+Proof. exact go_margins_spec. Qed.
+Print Assumptions C17_source_margins.
